@@ -119,6 +119,19 @@ class Env(object):
         importlib.invalidate_caches()
         return importlib.import_module(self.pkname + "." + name)
 
+    def redefine(self, mod, src):
+        """the same module is edited (other defaults for the same function name) and reloaded in this process"""
+        import linecache
+
+        path = mod.__file__
+        with open(path, "w") as f:
+            f.write(src)
+        self.mtime = getattr(self, "mtime", 1700000000) + 10
+        os.utime(path, (self.mtime, self.mtime))
+        importlib.invalidate_caches()
+        linecache.checkcache()
+        return importlib.reload(mod)
+
     def sig_direct(self, mod, pos, kws):
         self.cap.reset_log()
         self.cap.inner.__init__()  # fresh memory store: every call computes
@@ -150,10 +163,28 @@ def env():
 
 
 def check_case(case, ev=None):
-    """case = {"params": [...], "defaults": {p: enc|NO}, "bindings": [ {p: enc} ... ]}"""
+    """case = {"params": [...], "defaults": {p: enc|NO}, "bindings": [ {p: enc} ... ], "redefine": {p: enc}?}"""
+    mod = check_round(case, case["defaults"], ev, None)
+    if case.get("redefine"):
+        # the function is redefined under the same name with other defaults (edit + reload): omitted parameters
+        # must now be bound to the NEW defaults
+        d2 = dict(case["defaults"])
+        d2.update(case["redefine"])
+        check_round(case, d2, None, mod)
+
+
+def check_round(case, enc_defaults, ev, redefine_mod):
     params = case["params"]
-    defaults = {p: (NO if case["defaults"][p] == NO else dec(case["defaults"][p])) for p in params}
+    defaults = {p: (NO if enc_defaults[p] == NO else dec(enc_defaults[p])) for p in params}
     bindings = [{p: dec(b[p]) for p in params} for b in case["bindings"]]
+    if redefine_mod is not None:
+        # make sure at least one binding relies on each new default
+        extra = dict(bindings[0])
+        for p in params:
+            if defaults[p] is not NO:
+                extra[p] = defaults[p]
+        if not any(all(exact(extra[q]) == exact(o[q]) for q in params) for o in bindings):
+            bindings.append(extra)
     e = env()
     calls = []
     owner = []
@@ -161,7 +192,8 @@ def check_case(case, ev=None):
         sp = spellings(params, b, defaults, limit=case.get("limit"))
         calls += sp
         owner += [bi] * len(sp)
-    mod = e.load(render_module(params, defaults, calls))
+    src = render_module(params, defaults, calls)
+    mod = e.load(src) if redefine_mod is None else e.redefine(redefine_mod, src)
     by_binding = {}
     descr = {}
     for i, (pos, kws) in enumerate(calls):
@@ -208,6 +240,8 @@ def check_case(case, ev=None):
                 key=[sig_text(params, defaults), cb[bi]],
             )
         ev.extra["spellings"] = ev.extra.get("spellings", 0) + len(calls)
+    return mod
+
 
 
 def sig_text(params, defaults):
@@ -283,7 +317,17 @@ def case_strategy():
                 continue
             if not any(all(exact(b[q]) == exact(o[q]) for q in params) for o in bindings):
                 bindings.append(b)
-        return mk_case(params, defaults, bindings, limit=60 if n == 4 else None)
+        c = mk_case(params, defaults, bindings, limit=60 if n == 4 else None)
+        with_default = [p for p in params if defaults[p] is not NO]
+        if with_default and draw(st.integers(0, 2)) == 0:
+            c["redefine"] = {}
+            for p in with_default:
+                if draw(st.booleans()):
+                    nv = draw(st.sampled_from([v for v in DEFAULTS if exact(v) != exact(defaults[p])]))
+                    c["redefine"][p] = enc(nv)
+            if not c["redefine"]:
+                del c["redefine"]
+        return c
 
     return gen()
 
